@@ -22,7 +22,7 @@ from asn1crypto import algos, cms, core, x509 as ax509
 from cryptography import x509
 from cryptography.exceptions import InvalidSignature
 from cryptography.hazmat.primitives import hashes, serialization
-from cryptography.hazmat.primitives.asymmetric import dsa, ec, padding, rsa
+from cryptography.hazmat.primitives.asymmetric import dsa, ec, ed448, ed25519, padding, rsa
 from cryptography.x509.oid import NameOID
 
 OID_DATA = "1.2.840.113549.1.7.1"
@@ -43,6 +43,10 @@ def gen_key(alg):
         return ec.generate_private_key(ec.SECP256R1())
     if alg == "dsa":
         return dsa.generate_private_key(key_size=2048)
+    if alg == "ed25519":
+        return ed25519.Ed25519PrivateKey.generate()
+    if alg == "ed448":
+        return ed448.Ed448PrivateKey.generate()
     raise ValueError(alg)
 
 
@@ -53,6 +57,10 @@ def key_alg(key):
         return "ec"
     if isinstance(key, dsa.DSAPrivateKey):
         return "dsa"
+    if isinstance(key, ed25519.Ed25519PrivateKey):
+        return "ed25519"
+    if isinstance(key, ed448.Ed448PrivateKey):
+        return "ed448"
     raise ValueError(type(key))
 
 
@@ -76,7 +84,8 @@ def make_cert(key, cn, serial=None, org="verif", issuer_cn=None, issuer_key=None
          .serial_number(serial if serial is not None else x509.random_serial_number())
          .not_valid_before(datetime.datetime(2020, 1, 1)).not_valid_after(datetime.datetime(2050, 1, 1))
          .add_extension(x509.BasicConstraints(ca=True, path_length=None), critical=False))
-    return b.sign(issuer_key or key, hashes.SHA256()).public_bytes(serialization.Encoding.DER)
+    sk = issuer_key or key
+    return b.sign(sk, None if isinstance(sk, (ed25519.Ed25519PrivateKey, ed448.Ed448PrivateKey)) else hashes.SHA256()).public_bytes(serialization.Encoding.DER)
 
 
 def sign_raw(key, data, digest):
@@ -87,6 +96,8 @@ def sign_raw(key, data, digest):
         return key.sign(data, ec.ECDSA(h))
     if isinstance(key, dsa.DSAPrivateKey):
         return key.sign(data, h)
+    if isinstance(key, (ed25519.Ed25519PrivateKey, ed448.Ed448PrivateKey)):
+        return key.sign(data)      # pure EdDSA: no separate digest
     raise ValueError(type(key))
 
 
@@ -99,6 +110,8 @@ def sig_alg_name(alg, digest, style):
         return "%s_ecdsa" % digest
     if alg == "dsa":
         return "dsa" if style == "generic" else "%s_dsa" % digest
+    if alg in ("ed25519", "ed448"):
+        return alg
     raise ValueError(alg)
 
 
@@ -411,6 +424,8 @@ def verify_signer_info(si, econtent_type, sf_bytes, cert_der, require_content_ty
             pub.verify(si["signature"], tbs, ec.ECDSA(h))
         elif isinstance(pub, dsa.DSAPublicKey):
             pub.verify(si["signature"], tbs, h)
+        elif isinstance(pub, (ed25519.Ed25519PublicKey, ed448.Ed448PublicKey)):
+            pub.verify(si["signature"], tbs)
         else:
             return False, "unsupported key type", sid_ok
     except InvalidSignature:
